@@ -27,7 +27,59 @@ ASSUMPTIONS = ["a peer answering later than T is neither required to be reported
 EPS = 1e-6
 
 
+def run_second_without_pings(case):
+    """Run 1: keepalive on, the peer stops answering, the run ends in a ping/pong timeout (its last ping unanswered).
+    Run 2, same object, later: ping_interval=0 (no pings) with a ping_timeout: nothing of run 1 may make the healthy peer look dead."""
+    import websocket
+
+    obs = Obs()
+    I, T, T2, gap = case["interval"], case["timeout"], case["timeout2"], case.get("gap", 0.0)
+    sched = simkit.Sched(horizon=10000.0, repo=REPO, max_steps=3_000_000)
+    net = simkit.SimNet(sched)
+    first = {"timeline": [], "default_pong": None}
+    second = {"timeline": [[T2 + 1.0, ["data", simpeers.frame_bytes([{"op": rm.TEXT, "p": b"one"}])]], [2 * T2 + 1.5, ["data", simpeers.frame_bytes([{"op": rm.TEXT, "p": b"two"}])]],
+                           [3 * T2 + 2.0, ["data", rm.encode_frame(1, rm.CLOSE, struct.pack(">H", 1000))]]], "default_pong": 0.01}
+    sc = simpeers.Scenario(sched, net, [first, second])
+    trace = []
+    res = {}
+
+    def body():
+        app = websocket.WebSocketApp(("wss" if case.get("secure") else "ws") + "://c16.test/", on_error=lambda a, e: trace.append((sched.now, "error", type(e).__name__, str(e))),
+                                     on_message=lambda a, m: trace.append((sched.now, "message", m)), on_close=lambda a, c, r: trace.append((sched.now, "close", c, r)))
+        app.run_forever(ping_interval=I, ping_timeout=T)
+        res["first_errors"] = [e for e in trace if e[1] == "error"]
+        del trace[:]
+        if gap:
+            sched.block(None, gap, "between-runs")
+        res["ret"] = app.run_forever(ping_interval=0, ping_timeout=T2)
+
+    with simkit.installed(sched, net):
+        try:
+            main = sched.run(body)
+        except simkit.HarnessStuck as e:
+            raise HarnessError(str(e))
+    tag = "second-run-no-pings"
+    if sched.hang:
+        obs.fail(f"{tag}|run-does-not-end|{sched.hang[0]}", sched.hang[1])
+    elif main.exc is not None:
+        obs.fail(exc_bucket(f"{tag}|run_forever-raised", main.exc), f"{type(main.exc).__name__}: {main.exc}")
+    else:
+        errs = [e for e in trace if e[1] == "error"]
+        if errs:
+            obs.fail(f"{tag}|healthy-peer-reported|{errs[0][2]}", f"second run (no pings, ping_timeout={T2}) reported {errs[0][2]}: {errs[0][3]} at t={errs[0][0]:.2f}; first run ended with {res['first_errors'][-1:]}")
+        msgs = [e[2] for e in trace if e[1] == "message"]
+        if msgs != ["one", "two"]:
+            obs.fail(f"{tag}|messages-lost", f"second run delivered {msgs}")
+        if len(sc.peers) > 1 and sc.peers[1][1].pings:
+            obs.fail(f"{tag}|ping-sent-with-interval-0", f"{len(sc.peers[1][1].pings)} pings")
+    obs.cls = ("second-run-no-pings", f"I:{I}", f"T:{T}", f"T2:{T2}", f"gap:{gap}")
+    obs.nt = ("second-no-pings", I, T, T2, gap, case.get("secure"))
+    return obs
+
+
 def run_case(case):
+    if case.get("mode") == "second-no-pings":
+        return run_second_without_pings(case)
     import websocket
 
     obs = Obs()
@@ -211,6 +263,7 @@ def grid_cases():
             yield {"interval": I, "timeout": T, "payload": "keepalive", "traffic": [[2 * I + 0.5 * T, "data"], [3 * I - 0.2, "pong"], [5 * I + T + 0.5, "pong"], [7 * I, "ping"]]}
             yield {"interval": I, "timeout": T, "secure": True, "traffic": [[2 * I + 0.5 * T, "data"], [3 * I - 0.2, "pong"], [5 * I + T + 0.5, "pong"]]}
             yield {"interval": I, "timeout": T, "secure": True, "silent_from": 1, "traffic": [[3 * I + 0.3 * T, "data"], [3 * I + 0.9 * T, "data"]]}
+            yield {"interval": I, "timeout": T, "payload": '{"op":"ping"}'}
             yield {"interval": I, "timeout": T, "pong_with_data": 1}
             yield {"interval": I, "timeout": T, "payload": b"ka", "traffic": [[3 * I - 0.2, "pong"]]}  # (ping() takes bytes as well as str)
             yield {"interval": I, "timeout": T, "pong_with_data": 30, "secure": True}
@@ -223,6 +276,10 @@ def grid_cases():
             for n in (0, 1, 3):
                 yield {"interval": I, "timeout": T, "silent_from": n}
                 yield {"interval": I, "timeout": T, "silent_from": n, "traffic": [[(n + 2) * I + 0.3 * T, "data"], [(n + 2) * I + 0.9 * T, "data"], [(n + 2) * I + 1.4 * T, "ping"]]}
+    for I, T in ((2.5, 1), (3, 2), (10, 3)):
+        for T2 in (1, 3, 10):
+            for gap in (0.0, 5.0, 60.0):
+                yield {"mode": "second-no-pings", "interval": I, "timeout": T, "timeout2": T2, "gap": gap, "secure": T2 == 3}
     # interval only (no timeout): pings go on for as long as the connection is up, whether or not they are answered
     for I in (1, 2.5, 10):
         for sec in (False, True):
@@ -243,7 +300,7 @@ def cases(draw):
         return {"interval": I, "timeout": None, "payload": draw(st.sampled_from(["", "hb"])), "secure": draw(st.booleans()), "rerun": draw(st.integers(0, 3)) == 0,
                 "pong": draw(st.lists(st.sampled_from([0.0, 0.01, 0.5, None, None]), max_size=10)), "default_lat": draw(st.sampled_from([0.0, 0.01, 2.0])),
                 "traffic": sorted([round(draw(st.integers(1, 12)) * I + draw(st.sampled_from([-0.1, 0.0, 0.2])), 4), draw(st.sampled_from(["data", "ping", "pong"]))] for _ in range(draw(st.integers(0, 4))))}
-    c = {"interval": I, "timeout": T, "payload": draw(st.sampled_from(["", "", "hb", "é", b"", b"ka", b"\xff\x00"])), "secure": draw(st.integers(0, 2)) == 0,
+    c = {"interval": I, "timeout": T, "payload": draw(st.sampled_from(["", "", "hb", "é", b"", b"ka", b"\xff\x00", '{"op":"ping"}', "100%s {0} {x}", "{", "%"])), "secure": draw(st.integers(0, 2)) == 0,
          "rerun": draw(st.integers(0, 3)) == 0, "pong_with_data": draw(st.sampled_from([0, 0, 1, 20]))}
     mode = draw(st.sampled_from(["responsive", "responsive", "silent", "silent", "late"]))
     if mode == "silent":
